@@ -229,10 +229,16 @@ func (te *TEnv) structSort(t types.Type, st *types.Struct) *Sort {
 	}
 	s := &Sort{K: KData, Name: q, Ctor: "|mk!" + name + "|"}
 	te.data[q] = s
+	seen := map[string]bool{}
 	for i := 0; i < st.NumFields(); i++ {
 		f := st.Field(i)
 		fs := te.sortOf(f.Type())
-		s.Fields = append(s.Fields, Field{Name: f.Name(), Acc: "|" + name + "." + f.Name() + "|", So: fs, GoT: f.Type()})
+		an := f.Name()
+		if an == "_" || seen[an] {
+			an = fmt.Sprintf("%s!%d", an, i)
+		}
+		seen[an] = true
+		s.Fields = append(s.Fields, Field{Name: f.Name(), Acc: "|" + name + "." + an + "|", So: fs, GoT: f.Type()})
 	}
 	te.order = append(te.order, q)
 	return s
